@@ -16,7 +16,15 @@ cp -n $SRC/patch.diff $SRC/meta.json $DST/ 2>/dev/null
 HEAD=$(git -C /repo rev-parse HEAD)
 if [ ! -d $WT ]; then git -C /repo worktree add --detach $WT HEAD >/dev/null 2>&1; fi
 git -C $WT checkout -q --detach $HEAD && git -C $WT checkout -q -- . && git -C $WT clean -qfd
-R=$DST/confirm.txt; : > $R
+R=$DST/confirm.txt
+if [ "${SEED_SKIP_CONFIRM:-0}" = "1" ] && grep -q "suite_with_patch=pass" $R 2>/dev/null && grep -q "demo_with_patch=fail demo_without_patch=pass" $R 2>/dev/null; then
+  # regression mode: the change was confirmed before (suite passes 3x, demo fails with / passes without); only re-run the check
+  SUITE=pass; DEMO_WITH=fail; DEMO_WITHOUT=pass
+  git -C $WT apply --check $DST/patch.diff 2>/dev/null || { echo "APPLY_FAILED (regression mode)"; exit 3; }
+  SKIPPED_CONFIRM=1
+else
+SKIPPED_CONFIRM=0
+: > $R
 if ! git -C $WT apply $DST/patch.diff 2>>$R; then echo "APPLY_FAILED" | tee -a $R; printf "%s\t%s\t%s\t%s\t%s\t%s\t%s\t%s\n" "$CID" "$TIER" "apply-failed" "0" "suite=?" "demo_with=?" "demo_without=?" "" >> $DST/results.tsv; exit 3; fi
 ( cd $WT && go build ./... ) >>$R 2>&1 || { echo "BUILD_FAILED" | tee -a $R; git -C $WT checkout -q -- .; exit 3; }
 SUITE=pass
@@ -36,6 +44,7 @@ if [ -f $DST/demo_test.go ]; then
 fi
 git -C $WT checkout -q -- . ; git -C $WT clean -qfd
 echo "demo_with_patch=$DEMO_WITH demo_without_patch=$DEMO_WITHOUT (placed in $PL)" | tee -a $R
+fi
 # now our check, on /repo itself
 if [ -n "$(git -C /repo status --porcelain)" ]; then echo "REPO DIRTY, abort"; exit 4; fi
 rm -rf /verif/.work/evbak && cp -r /verif/evidence /verif/.work/evbak
